@@ -162,7 +162,45 @@ func decodeFresh(ti tyInfo, text []byte) (cv string, ok bool, panicked bool) {
 	if err := json.Unmarshal(text, p); err != nil {
 		return "", false, false
 	}
-	return ti.canon(p), true, false
+	cv = ti.canon(p)
+	if len(kept) < 4000 {
+		kept = append(kept, keptValue{ti, p, cv, string(text)})
+	}
+	return cv, true, false
+}
+
+// every decoded value is kept and canonicalised again at the end of the run: a value must not change because OTHER values
+// were decoded after it (shared default maps, pooled buffers)
+type keptValue struct {
+	ti   tyInfo
+	p    any
+	cv   string
+	text string
+}
+
+var kept []keptValue
+
+func recheckKept(s *Sink) {
+	changed := 0
+	for _, k := range kept {
+		now := ""
+		func() {
+			defer func() {
+				if r := recover(); r != nil {
+					now = "panic"
+				}
+			}()
+			now = k.ti.canon(k.p)
+		}()
+		if now != k.cv {
+			changed++
+			if changed <= 3 {
+				s.Fail(map[string]any{"op": "later-decodes", "type": k.ti.coq, "json": k.text, "decoded": k.cv, "now": now}, "a decoded value changed after other values were decoded")
+			}
+		}
+	}
+	s.Extra["decoded_values_rechecked_at_end"] = len(kept)
+	kept = nil
 }
 
 func c14round(s *Sink, tyName string, value any, cvv string, aux string, zone string, class string) {
@@ -535,6 +573,7 @@ func runC14(o Opts) error {
 			c14of(s, "DateTime", t, z, "of/datetime")
 		}
 	}
+	recheckKept(s)
 	time.Local = time.UTC
 	s.Extra["zones"] = len(zones)
 	s.Extra["composite_round_trips"] = composites
